@@ -66,6 +66,21 @@ theorem classify_rt (rest : List Char) :
 
 end classify
 
+/-- a CHARGE line without any ASCII digit lists no charge state at all -/
+theorem classify_charge_no_digit (pf : String → Option ν) (isNum : Char → Bool)
+    (hk : KeywordInitialsNotNumeric isNum) (rest : List Char) (hnd : ∀ c ∈ rest, c.isDigit = false) :
+    classify pf isNum ("CHARGE=".toList ++ rest) = .charge [] := by
+  rw [classify_charge pf isNum hk]
+  congr 1
+  unfold chargeDigits
+  induction rest with
+  | nil => rfl
+  | cons c rest ih =>
+    have hc := hnd c (by simp)
+    rw [List.filterMap_cons]
+    simp only [hc, Bool.false_eq_true, if_false]
+    exact ih fun c' hc' => hnd c' (by simp [hc'])
+
 /-- a line whose first character is numeric is a peak line: first two whitespace-separated columns -/
 theorem classify_peak (pf : String → Option ν) (isNum : Char → Bool) (c : Char) (rest : List Char)
     (hc : isNum c = true) :
@@ -266,6 +281,10 @@ example :
     [ .beginIons, .endIons, .title "x y", .pepmass (.ok 500) (.ok 7), .pepmass .absent .absent, .pepmass .bad .absent,
       .charge [2, 3], .tol (.ok 10), .tol .bad, .tolu "ppm", .rt (.ok 60), .peak (.ok 100) (.ok 5),
       .peak (.ok 100) .absent, .peak (.ok 100) .bad, .other, .other, .other ] := by decide
+
+example : ["CHARGE=", "CHARGE=unknown", "CHARGE=Mr", "CHARGE=٣+"].map
+    (fun l => classify (ν := Nat) (fun _ => none) Char.isDigit l.toList) = [.charge [], .charge [], .charge [], .charge []] := by
+  decide
 
 example : rustLines "a\nb\r\n\nc".toList = ["a".toList, "b".toList, [], "c".toList] ∧
     rustLines "a\n".toList = ["a".toList] ∧ rustLines [] = [] ∧
